@@ -182,6 +182,26 @@ fn forgeries(auth: &WMessage, n_players: usize, payloads: &[Vec<u8>]) -> Vec<(St
     out
 }
 
+/// Packets that claim to be encoded against a frame the receiver cannot hold (start frame far
+/// ahead of anything sent) and whose payload is garbage or stale: nothing in them can be
+/// validated, so none of their fields may be acted upon (the receiver may acknowledge what it
+/// holds and count the packet as a sign of life, nothing more). Only meaningful once the receiver
+/// holds input of that peer - the very first input packet may start at any frame.
+fn unheld_reference_forgeries(auth: &WMessage, n_players: usize) -> Vec<(String, WMessage)> {
+    let WBody::Input(inp) = &auth.body else { return Vec::new() };
+    let mut out = Vec::new();
+    for p in [vec![0x80u8], vec![0xFF], inp.bytes.clone()] {
+        for (fname, g) in field_damage(n_players) {
+            let mut i = inp.clone();
+            i.start_frame = inp.start_frame.max(0) + 40;
+            i.bytes = p.clone();
+            g(&mut i);
+            out.push((format!("unheld-reference(start+40)+payload={:02x?}+{fname}", &p[..p.len().min(4)]), WMessage { magic: auth.magic, body: WBody::Input(i) }));
+        }
+    }
+    out
+}
+
 /// The smallest rng seed whose k-th 16-bit draw is 0 while the earlier ones are not.
 fn seed_with_zero_draw(k: usize) -> u64 {
     for seed in 1u64..50_000_000 {
@@ -325,6 +345,18 @@ pub fn c08() -> i32 {
         s.checks = CK_CORE;
         bases.push((s, if t { (0..14).collect() } else if wide { vec![2, 9] } else { vec![0, 2, 5, 9, 11] }));
     }
+    // the first peer's own packets do not get through for a while (rounds 4..10): what it has
+    // sent is still unacknowledged when the forged packet arrives, so a forged acknowledgement
+    // that is acted upon makes it forget input its peer never received
+    for (w, d) in [(8usize, 0usize), (3, 2)] {
+        let mut s = base_scn("c08-running-outage", "1+1", w, d, false, Pred::RepeatLast, Program::Changing, 1);
+        let (a, b) = (s.peers[0].addr, s.peers[1].addr);
+        s.outages.push(crate::net::Outage { from: a, to: b, start: 4, len: 6, classes: CLASS_ALL });
+        s.horizon = 14;
+        s.probe = 40;
+        s.checks = CK_CORE;
+        bases.push((s, vec![6, 9]));
+    }
     // endpoints whose first draw for their magic number is 0 (the value the receiving side
     // uses for "peer not known yet"): the draw has to be repeated, otherwise the peer's magic
     // filter stays off for the whole session
@@ -380,6 +412,9 @@ pub fn c08() -> i32 {
             let payloads = &pl;
             if let Some((_, m)) = auth {
                 forged.extend(forgeries(m, base.num_players, payloads));
+                if old_auth.is_some() && !base.name.starts_with("c08-after-disconnect") {
+                    forged.extend(unheld_reference_forgeries(m, base.num_players));
+                }
                 if let Some((_, om)) = old_auth {
                     forged.extend(forgeries(om, base.num_players, &[]).into_iter().filter(|f| f.0.starts_with("frame-size") || f.0.starts_with("extra-frames")).map(|f| (format!("old-{}", f.0), f.1)));
                 }
